@@ -1,6 +1,7 @@
 package props
 
 import (
+	"os"
 	"fmt"
 	"math"
 	"sort"
@@ -255,14 +256,21 @@ func (c01) Generate(r *sim.Rand, tier string) *sim.Scenario {
 		maxOps, maxDepth = 50, 60
 	}
 	wide := false
-	if r.Bool(0.003) {
+	pWide, pDeep := 0.003, 0.003
+	switch os.Getenv("QV_C01_FLAVOUR") { // soak aid: force a flavour
+	case "wide":
+		pWide = 1
+	case "deep":
+		pWide, pDeep = 0, 1
+	}
+	if r.Bool(pWide) {
 		wide = true
 		mode = 3
 		linear = false
 		nclients = 1
 		maxOps = 6
 		g.o = genOpts{MaxElems: 6, MaxRank: 2, MaxDim: 3, Linear: true, PSynth: 0.1, PTracked: 1}
-	} else if r.Bool(0.003) {
+	} else if r.Bool(pDeep) {
 		// a deep graph: hundreds of levels of a linear diamond chain / ladder on
 		// small tensors (bookkeeping that degrades with depth; 2^depth paths)
 		mode = []int{6, 7}[r.Intn(2)]
@@ -270,6 +278,13 @@ func (c01) Generate(r *sim.Rand, tier string) *sim.Scenario {
 		nclients = 1
 		maxDepth = r.Range(150, 450)
 		maxOps = 12
+		// hundreds of levels of additions and subtractions cancel again and again:
+		// what remains at a node can be pure rounding residue of intermediate
+		// terms a million times larger, which the cone-split twin's comparison
+		// scale (terms at the node itself) does not see; the deep flavour is
+		// decided by the exact finite differences of the linear program, the
+		// step budget and the presence / shape oracles
+		sc.Cfg["deep"] = 1
 		g.o = genOpts{MaxElems: 6, MaxRank: 2, MaxDim: 3, Linear: true, PSynth: 0.1, PTracked: 1}
 	}
 	// size swarm: now and then long dimensions / many concat operands / rank 5
@@ -1218,7 +1233,7 @@ func (prop c01) Execute(sc *sim.Scenario) *sim.Outcome {
 	}
 
 	/* 2b. cone-split twin: partial unfolding that scales to any depth */
-	if len(p.roots) == 1 && p.tracked[p.roots[0]] && (!unfoldedAll || sc.Seed%4 == 0) {
+	if len(p.roots) == 1 && p.tracked[p.roots[0]] && (!unfoldedAll || sc.Seed%4 == 0) && sc.Cfg["deep"] != 1 {
 		rc := p.reach(p.roots[0])
 		cons := map[int]int{}
 		for _, st := range sc.Steps {
